@@ -17,6 +17,10 @@ var curT *testing.T
 // to the property under test; a violation of another property ends the
 // scenario and is labelled, not reported (its own check reports it).
 func runTagged(sc Scenario, nt func(*Result) bool, tags ...string) vrt.Verdict {
+	curProp = ""
+	if len(tags) == 1 {
+		curProp = tags[0]
+	}
 	res := RunScenario(curT, &sc)
 	if res.Malformed != "" {
 		return vrt.Discardf("%s", res.Malformed)
@@ -53,9 +57,10 @@ func TestC05Controlled(t *testing.T) {
 	p.maxOps = 25
 	p.wDone = 2
 	p.minWatch = 2
+	p.wReportErr = 2 // error reports (plain, or wrapping a context error of the watcher's own) between value reports change nothing
 	vrt.Check(t, vrt.Prop[Scenario]{
 		ID: "C05", Name: "controlled",
-		Rule: "histories of 1..25 operations (value reports from 2..3 fake watching sources, blocking or not, views, Events reads, registrations, EnableVerification, watchers that finish with Done - also twice - while others keep reporting) against a real Dials inside a testing/synctest bubble, quiescence (synctest.Wait) after every step; " +
+		Rule: "histories of 1..25 operations (value reports from 2..3 fake watching sources, blocking or not, views, Events reads, registrations, EnableVerification, source error reports incl. ones wrapping context.Canceled / DeadlineExceeded, watchers that finish with Done - also twice - while others keep reporting) against a real Dials inside a testing/synctest bubble, quiescence (synctest.Wait) after every step; " +
 			"oracle: after every step the view deep-equals the pure reference stack of the defaults and each source's latest reported value (or the last version that verified), every installed version's serial is its predecessor's + 1 (sampled at the store by a schedule point), View and ViewVersion agree, Events delivers exactly the model's pending version; " +
 			"non-trivial = >=3 installs from >=2 sources; distinct = distinct scenario JSON",
 		Assumptions: []string{"sources report values of the pointerified type they were given", "the harness observes stores through the verif-tagged schedule point mon.stored"},
@@ -164,6 +169,8 @@ func TestC09Controlled(t *testing.T) {
 	p.maxOps = 12
 	p.shutdownPct = 20 // every watcher finishes (or the context ends) and EnableVerification is called afterwards
 	p.lateOps = []string{"enable", "enable", "view"}
+	p.slowPct, p.wReleaseCB = 20, 1 // a lagging callback goroutine: what is withheld is decided when an event is queued, not when it is delivered
+	p.wRegister = 2
 	vrt.Check(t, vrt.Prop[Scenario]{
 		ID: "C09", Name: "controlled",
 		Rule: "all four combinations of DelayInitialVerification x CallGlobalCallbacksAfterVerificationEnabled (delay drawn with probability 2/3), 0..3 watching sources, sequences of valid / invalid reports, source error reports and repeated EnableVerification calls in any order, in a fifth of the histories followed by a shutdown (cancel, or every watcher Done) and further EnableVerification calls; " +
